@@ -21,7 +21,7 @@ BOUNDS = {'quick': 'samples <= 3, failable_evals in 0..2, absolute tolerance sym
                    '2x2 matrix of symbolic entries; consolidate_results with n <= 4 results',
           'thorough': 'samples <= 4, failable_evals 0..3, consolidate_results n <= 6, 3x3 matrices'}
 OUTSIDE = ['IEEE rounding / guard band', 'complex-valued samples and answers', 'more samples than the bound']
-DEADLINE = {'quick': 150, 'thorough': 1500}
+DEADLINE = {'quick': 600, 'thorough': 1500}
 FUNCS = ['mathfuncs.within_tolerance', 'mathfuncs.percentage_as_number', 'comparers.EqualityComparer.__call__', 'MathMixin.compare_evaluations',
          'MathMixin.consolidate_results', 'ItemGrader.standardize_cfn_return', 'FormulaGrader.raw_check/gen_evaluations', 'MathMixin.check_math_response',
          'sampling.gen_symbols_samples', 'expressions.MathParser.parse', 'expressions.MathExpression.eval', 'expressions.evaluator',
